@@ -57,7 +57,7 @@ MANIFEST = {
              "the stability certificate and T Ua = Ua Ta exactly, the simulated databox against the exact recursion; that scipy's ordqz/schur/lstsq "
              "return an (approximately) exact factorisation is not modelled; Blanchard-Kahn count against an independent scipy eig of the harness's own pencil."),
     "design": "7/C01",
-    "note": "partial: certificate validation per program; floating point and LAPACK are outside the theorems; conditional (plan) simulations belong to C07",
+    "note": "known findings: a lead in a measurement equation is dropped; a shock at a non-zero shift in a transition equation is treated as contemporaneous (both replayed from corpus/C01 first on every run, the generator does not produce shifted shocks). partial: certificate validation per program; floating point and LAPACK are outside the theorems; conditional (plan) simulations belong to C07",
     "technique": "Lean 4 proof of schematic theorems + exact-arithmetic certificate validation + dyadic-exact differential correspondence of the simulator",
 }
 ASSUMPTIONS = [
@@ -210,6 +210,8 @@ def spec_source(spec: dict) -> tuple[str, dict]:
                 rhs.append(f"{fnum(c)}*{lin(xname(j), spec['logly'][j], sh)}")
         for (k, c) in eq["shocks"]:
             rhs.append(f"{fnum(c)}*{ename(k)}")
+        for (k, c, sh) in (spec.get("shock_lags") or [[]] * n)[i]:
+            rhs.append(f"{fnum(c)}*{ename(k)}{{{sh:+d}}}")          # a shock at a non-zero shift (moving-average term)
         if eq["const"] != 0 or not rhs:
             rhs.append(fnum(eq["const"]))
         lhs = lin(xname(i), spec["logly"][i], 0)
@@ -637,11 +639,17 @@ def oracle_equations(ctx: Ctx, b: Built, case, tag: dict, split=None, deviation=
                 r -= c * Xc[j, L + t + sh]
             for (k, c) in eq["shocks"]:
                 r -= c * (U[k, t] + V[k, t])
+            shifted = (spec.get("shock_lags") or [[]] * spec["n"])[i]
+            for (k, c, sh) in shifted:
+                if 0 <= t + sh < nper:                      # shocks outside the simulated span are zero
+                    r -= c * (U[k, t + sh] + V[k, t + sh])
             if not deviation:
                 r -= eq["const"]
             worst = max(worst, abs(r))
             if not (abs(r) <= TOL_RES * scale):
-                ctx.fail("equation-residual", dict(tag, period=t, equation=i), f"transition equation {i} at period {t}: residual {r:.3e} (scale {scale:.3g})")
+                site = "lagged-shock-treated-as-contemporaneous" if shifted else "equation-residual"
+                ctx.fail(site, dict(tag, period=t, equation=i), f"transition equation {i} at period {t}: residual {r:.3e} (scale {scale:.3g})"
+                         + (" (the equation contains a shock at a non-zero shift)" if shifted else ""))
                 ok = False
         for rr, me in enumerate(spec["meas"]):
             r = Y[rr, t]
@@ -1141,6 +1149,9 @@ def check_model(ctx: Ctx, i, r: Rng, spec, verdict, lines: dict, n_cases: int):
     if spec.get("meas_lead"):
         check_measurement_lead(ctx, r, spec, tag)
         return None
+    if spec.get("shock_lags"):
+        check_lagged_shock(ctx, r, spec, tag)
+        return None
     try:
         b = build_model(spec)
     except Exception as e:
@@ -1454,6 +1465,19 @@ def impl_variant_plan(b: Built, case, n, M, D) -> str:
     return ",".join(plan)
 
 
+def check_lagged_shock(ctx: Ctx, r: Rng, spec, tag, case=None):
+    """a transition equation with a shock at a non-zero shift (moving-average term): only the equation oracle runs; an equation that
+    contains such a token fails under the narrow site `lagged-shock-treated-as-contemporaneous`, every other equation under the usual sites"""
+    try:
+        b = build_model(spec)
+    except Exception:
+        ctx.count("lagged-shock:rejected")
+        return
+    ctx.count("lagged-shock:accepted")
+    case = case or gen_sim_case(r.fork("lagshock"), spec)
+    oracle_equations(ctx, b, case, dict(tag, case=case), split=False)
+
+
 def check_measurement_lead(ctx: Ctx, r: Rng, spec, tag):
     """a measurement equation with a lead of a transition variable: either the model is rejected, or the equation must hold
     with the lead read from the continuation like any other equation"""
@@ -1649,7 +1673,7 @@ def run(ctx: Ctx):
 
 
 def _new_failure(ctx: Ctx) -> bool:
-    return any(f["site"] != "measurement-equation-with-lead" for f in ctx.failures)
+    return any(f["site"] not in ("measurement-equation-with-lead", "lagged-shock-treated-as-contemporaneous") for f in ctx.failures)
 
 
 def search(ctx: Ctx, seeds):
@@ -1657,7 +1681,7 @@ def search(ctx: Ctx, seeds):
     then the generator with a bigger budget (oracles only).  Models with a lead in a measurement equation are left out."""
     lines = new_lines()
     for s in seeds:
-        if isinstance(s, dict) and "spec" in s and not s["spec"].get("meas_lead"):
+        if isinstance(s, dict) and "spec" in s and not s["spec"].get("meas_lead") and not s["spec"].get("shock_lags"):
             try:
                 spec = s["spec"]
                 if "history" in s:
@@ -1693,6 +1717,9 @@ def replay(ctx: Ctx, payload):
         tag = {"model": case.get("model", 0), "spec": spec}
         if spec.get("meas_lead"):
             check_measurement_lead(ctx, ctx.rng.fork("replay"), spec, tag)
+            return
+        if spec.get("shock_lags"):
+            check_lagged_shock(ctx, ctx.rng.fork("replay"), spec, tag, case.get("case"))
             return
         if "history" in case:
             ctx.extra["programs"] = ctx.extra.get("programs", 0) + 1
